@@ -291,7 +291,8 @@ JudgeDecapQ(e, rx, q, crc) ==
                               !.done = (kind = "end" /\ r.t = "completed")]) @@ rx.ghost
         ELSE rx.ghost
       rx2 == [rx EXCEPT !.adm = adm2, !.mem = post, !.owned = owned2, !.ghost = newGhost,
-                        !.lock = rx.lock /\ isPend, !.pend = NoPend]
+                        \* lock-step survives receiver-only traffic that cannot set the label memory
+                        !.lock = rx.lock /\ (isPend \/ ~isStart), !.pend = IF isPend THEN NoPend ELSE rx.pend]
   IN  [ bad |-> verdicts, hits |-> hs, rx |-> rx2,
         cls |-> <<"decap", q.cls, kind, IF delim THEN w.why ELSE "-", IF delim THEN w.lt ELSE "-",
                   IF r.t = "err" THEN r.e ELSE r.t, SizeClass(N), hasCtx, g.open, Len(pre.free) > 0>> ]
@@ -335,6 +336,15 @@ JudgeProvision(e, rx) ==
         rx |-> [rx EXCEPT !.prov = prov2, !.owned = owned2, !.mem = post],
         cls |-> <<"provision", e.res>> ]
 
+\* the caller takes a free buffer through Decapsulator::new_pdu
+JudgeTake(e, rx) ==
+  LET owned2 == IF e.res = "ok" THEN rx.owned \cup {e.tag} ELSE rx.owned
+  IN [ bad |-> V(e.res # "panic", <<"C08">>, "Take.NoPanic")
+            \cup V(e.mem.ok => Conserved(e.mem, rx.prov, owned2), <<"C08">>, "Take.Conservation")
+            \cup V(rx.mem.ok /\ Len(rx.mem.free) > 0 => e.res = "ok", <<"C17">>, "Take.SucceedsWhenFree"),
+       hits |-> H(TRUE, "Take.NoPanic") \cup H(e.mem.ok, "Take.Conservation") \cup H(rx.mem.ok /\ Len(rx.mem.free) > 0, "Take.SucceedsWhenFree"),
+       rx |-> [rx EXCEPT !.owned = owned2, !.mem = e.mem], cls |-> <<"take", e.res>> ]
+
 JudgeDrain(e, rx) ==
   [ bad |-> V(e.mem.ok => Conserved(e.mem, rx.prov, rx.owned), <<"C08">>, "Drain.Conservation"),
     hits |-> H(e.mem.ok /\ rx.prov # {}, "Drain.Conservation"),
@@ -359,6 +369,7 @@ RxStep(e, rx, tx, crc) ==
     [] e.ev = "peek"      -> JudgePeek(e, rx)
     [] e.ev = "provision" -> JudgeProvision(e, rx)
     [] e.ev = "drain"     -> JudgeDrain(e, rx)
+    [] e.ev = "take"      -> JudgeTake(e, rx)
     [] e.ev = "decap_family" -> JudgeFamily(e, rx)
     [] e.ev = "rx_reset"  -> [bad |-> {}, hits |-> {}, cls |-> <<"rx_reset">>, rx |-> [rx EXCEPT !.adm = {NoLabel}]]
     [] OTHER              -> [bad |-> {}, hits |-> {}, cls |-> <<"other", e.ev>>, rx |-> rx]
